@@ -120,7 +120,11 @@ def lean_prepare(prop, tier):
         audit_mod = "DateutilVerif.Audit.%s" % prop
         audit_file = os.path.join(LEAN, "DateutilVerif", "Audit", "%s.lean" % prop)
         st.theorems = re.findall(r"^#print axioms\s+(\S+)", open(audit_file).read(), re.M)
-        rc, out = sh(["lake", "build", "DateutilVerif.Properties.%s" % prop], cwd=LEAN)
+        # the property's own module plus any further module the audit file imports (e.g. Properties/TzGen.lean: the
+        # obligations tying the property to functions re-translated from source)
+        audit_imports = [m for m in re.findall(r"^import (DateutilVerif\.\S+)", open(audit_file).read(), re.M)
+                         if m != "DateutilVerif.Properties.%s" % prop]
+        rc, out = sh(["lake", "build", "DateutilVerif.Properties.%s" % prop] + audit_imports, cwd=LEAN)
         st.build_log += out
         st.build_ok = rc == 0
         if not st.build_ok:
